@@ -1017,7 +1017,7 @@ class InBodyPhase(Phase):
         else:
             if self.tree.openElements[1].parent:
                 self.tree.openElements[1].parent.removeChild(self.tree.openElements[1])
-            while self.tree.openElements[-1].name != "html":
+            while len(self.tree.openElements) > 1:
                 self.tree.openElements.pop()
             self.tree.insertElement(token)
             self.parser.phase = self.parser.phases["inFrameset"]
